@@ -46,6 +46,10 @@ type Gen struct {
 	NoExtra   bool // no destination fields outside the schema
 	FmtModes  bool // vary the formatter level (execution formatter, i18n language)
 	Share     bool // place one schema object at several positions
+	// NearSuccess: every node is valid for its input except deliberately placed ones — catching primitives whose
+	// catch triggers (no issue) and struct/slice nodes whose LAST test fails — so that a skipped constraint
+	// turns a failing execution into a successful one (C01)
+	NearSuccess bool
 }
 
 func (g *Gen) id() int { g.nextID++; return g.nextID }
@@ -85,7 +89,7 @@ func (g *Gen) fnTest() TestSpec {
 	if r.P(1, 6) {
 		rem = mod // never satisfied
 	}
-	return TestSpec{ID: g.id(), Name: "fn", N: mod, R: rem, Opts: g.topts()}
+	return TestSpec{ID: g.id(), Name: "fn", N: mod, R: rem, Opts: g.topts(), Reuse: r.P(1, 3)}
 }
 
 func (g *Gen) smallInt() int64 {
@@ -205,7 +209,7 @@ func (g *Gen) primTests(pk string) []TestSpec {
 
 func (g *Gen) posts(n *Node) []PostSpec {
 	r := g.R
-	if g.NoPosts || !r.P(1, 4) {
+	if g.NoPosts || g.NearSuccess || !r.P(1, 4) {
 		return nil
 	}
 	k := r.Range(1, 2)
@@ -233,6 +237,22 @@ func (g *Gen) posts(n *Node) []PostSpec {
 		out = append(out, ps)
 	}
 	return out
+}
+
+// passThenFail gives a struct / slice node 0..3 always-passing tests and, half of the time, one
+// never-passing test at the end
+func (g *Gen) passThenFail(n *Node) {
+	r := g.R
+	for k := r.Range(0, 2); k > 0; k-- {
+		t := g.fnTest()
+		t.N, t.R, t.Opts = 1, 0, TOpts{}
+		n.Tests = append(n.Tests, t)
+	}
+	if r.P(1, 2) {
+		t := g.fnTest()
+		t.N, t.R, t.Opts = 2, 2, TOpts{}
+		n.Tests = append(n.Tests, t)
+	}
 }
 
 var keyPool = []string{"a", "b", "c", "name", "age", "Zed", "tags", "inner", "x_1", "d", "e", "qty"}
@@ -263,6 +283,24 @@ func (g *Gen) NodeOf(kind string, depth int) *Node {
 	switch kind {
 	case "prim":
 		n.PK = rng.Pick(r, []string{"str", "str", "str", "int", "int", "int", "bool", "i32", "i64", "f64", "f64", "time"})
+		if g.NearSuccess {
+			n.PK = rng.Pick(r, []string{"str", "int", "int", "bool"})
+			if r.P(1, 2) {
+				// a catching node whose single test never passes: the catch triggers, nothing is reported
+				d := g.primD(n.PK, true)
+				n.Catch = &d
+				t := g.fnTest()
+				t.R = t.N
+				t.Opts = TOpts{}
+				n.Tests = []TestSpec{t}
+				if r.P(1, 3) {
+					o := TOpts{}
+					n.Req = &o
+					n.ReqID = g.id()
+				}
+			}
+			return n
+		}
 		if r.P(40, 100) {
 			o := g.topts()
 			n.Req = &o
@@ -312,6 +350,12 @@ func (g *Gen) NodeOf(kind string, depth int) *Node {
 			n.SliceDfltD = &vd
 		}
 		k := rng.Pick(r, []int{0, 0, 1, 1, 2})
+		if g.NearSuccess {
+			g.passThenFail(n)
+			k = 0
+			n.Req = nil
+			n.SliceDfltIn, n.SliceDfltD = nil, nil
+		}
 		for i := 0; i < k; i++ {
 			if r.P(1, 3) {
 				n.Tests = append(n.Tests, g.fnTest())
@@ -335,7 +379,7 @@ func (g *Gen) NodeOf(kind string, depth int) *Node {
 		for n.Elem.Kind == "ptr" || n.Elem.Kind == "custom" {
 			n.Elem = g.Node(depth + 1)
 		}
-		if r.P(40, 100) {
+		if !g.NearSuccess && r.P(40, 100) {
 			o := g.topts()
 			n.NotNil = &o
 			n.NNID = g.id()
@@ -378,6 +422,10 @@ func (g *Gen) NodeOf(kind string, depth int) *Node {
 			n.Extra = []string{"Zextra"}
 		}
 		k := rng.Pick(r, []int{0, 0, 0, 1, 2})
+		if g.NearSuccess {
+			g.passThenFail(n)
+			k = 0
+		}
 		for i := 0; i < k; i++ {
 			n.Tests = append(n.Tests, g.fnTest())
 		}
@@ -385,6 +433,9 @@ func (g *Gen) NodeOf(kind string, depth int) *Node {
 	case "custom":
 		n.CK = rng.Pick(r, []string{"int", "str"})
 		n.CTest = g.fnTest()
+		if g.NearSuccess {
+			n.CTest.N, n.CTest.R, n.CTest.Opts = 1, 0, TOpts{}
+		}
 	}
 	return n
 }
@@ -418,6 +469,34 @@ func dToV(d D) V {
 // Input generates an input for Parse: mostly valid for the schema, sometimes absent / wrongly typed.
 func (g *Gen) Input(n *Node) V {
 	r := g.R
+	if g.NearSuccess {
+		switch n.Kind {
+		case "prim":
+			if n.Req == nil && r.P(1, 6) {
+				return VNil()
+			}
+			return dToV(g.primD(n.PK, false))
+		case "custom":
+			if n.CK == "int" {
+				return VInt(int64(r.Range(1, 9)))
+			}
+			return VStr("abc")
+		case "slice":
+			out := V{K: "l"}
+			for k := r.Range(1, 3); k > 0; k-- {
+				out.L = append(out.L, g.Input(n.Elem))
+			}
+			return out
+		case "ptr":
+			return g.Input(n.Elem)
+		case "struct":
+			out := V{K: "o"}
+			for _, f := range n.Fields {
+				out.O = append(out.O, KV{f.MapKey(), g.Input(f.S)})
+			}
+			return out
+		}
+	}
 	// absent-looking
 	if r.P(12, 100) {
 		return rng.Pick(r, []V{VNil(), VNil(), VStr(""), VStr("  ")})
